@@ -126,6 +126,32 @@ fn all_inputs(dir: &Path) -> Vec<Input> {
         v.push(Input { name: format!("corpus/{n}"), path: PathBuf::from(format!("/repo/testdata/{n}")), kind: InputKind::Dump });
     }
     v.extend(gen_inputs(dir));
+    // every synthetic seed dump of C01 (little-endian): all stream types, both memory lists, all CPU contexts
+    for (name, bytes) in vh::seeds::synthetic_seeds() {
+        if bytes.starts_with(b"MDMP") {
+            let p = dir.join(format!("seed-{}.dmp", name.replace(['/', ' ', ':'], "_")));
+            std::fs::write(&p, &bytes).expect("write seed dump");
+            v.push(Input { name: format!("seed/{name}"), path: p, kind: InputKind::Dump });
+        }
+    }
+    {
+        // a thread whose stack size is not a multiple of the pointer size; an empty Linux text stream
+        use minidump_synth as synth;
+        use test_assembler::{Endian, Section};
+        let e = Endian::Little;
+        let stack = synth::Memory::with_section(Section::with_endian(e).append_repeated(0x41, 0x1d), 0x7000_0000);
+        let ctx = synth::x86_context(e, 0x40_1000, 0x7000_0004);
+        let d = synth::SynthMinidump::with_endian(e)
+            .add_system_info(synth::SystemInfo::new(e).set_processor_architecture(0).set_platform_id(0x8201))
+            .add_thread(synth::Thread::new(e, 1, &stack, &ctx))
+            .add_memory(stack)
+            .add(ctx)
+            .set_linux_environ(b"")
+            .set_linux_lsb_release(b"DISTRIB_ID=x\n");
+        let p = dir.join("odd-stack-empty-streams.dmp");
+        std::fs::write(&p, d.finish().expect("synth")).expect("write");
+        v.push(Input { name: "generated/odd-stack-empty-streams".into(), path: p, kind: InputKind::Dump });
+    }
     for (name, _b) in vh::seeds::corpus_seeds() {
         let n = name.trim_start_matches("corpus/").to_string();
         if n != "test.dmp" && n != "linux-mini.dmp" {
@@ -200,6 +226,21 @@ fn dump_landmarks(path: &Path, brief: bool) -> Option<Vec<Vec<u8>>> {
     if let Ok(ml) = dump.get_stream::<MinidumpModuleList>() {
         let mut o = vec![];
         ml.print(&mut o).ok()?;
+        v.push(o);
+    }
+    // both memory-list streams are printed when both are present (the 64-bit one first, as the unified list)
+    if let Ok(m64) = dump.get_stream::<MinidumpMemory64List>() {
+        let mut o = vec![];
+        m64.print(&mut o, brief).ok()?;
+        v.push(o);
+        if let Ok(m32) = dump.get_stream::<MinidumpMemoryList>() {
+            let mut o = vec![];
+            m32.print(&mut o, brief).ok()?;
+            v.push(o);
+        }
+    } else if let Ok(m32) = dump.get_stream::<MinidumpMemoryList>() {
+        let mut o = vec![];
+        m32.print(&mut o, brief).ok()?;
         v.push(o);
     }
     if let Ok(ex) = dump.get_stream::<MinidumpException>() {
@@ -333,7 +374,7 @@ fn run_cfg(sh: &Shared, ii: usize, cfg: &Cfg, l: &mut Local) {
                 match find_from(&primary, piece, pos) {
                     Some(p) => pos = p,
                     None => {
-                        fail(l, "dump-output-misses-library-print", format!("raw dump output lacks (in order) library printer #{k} of [header, thread list, module list, exception, system info]"));
+                        fail(l, "dump-output-misses-library-print", format!("raw dump output lacks (in order) library printer #{k} of [header, thread list, module list, memory list(s), exception, system info] (those present)"));
                         break;
                     }
                 }
